@@ -148,12 +148,14 @@ FULL STATEMENTS (both FALSE on the unchanged tree — `Witness.fmt_preserves_tok
     ∀ x, idempotentAt x = true           -- Format (Format x) = Format x
 
 PROVED PART: both hold for every input in the fragment `W` (`inW`, Fragment.lean — an explicit
-DECIDABLE predicate on rune strings, no size bound): plain words, any non-CR white space /
+DECIDABLE predicate on rune strings, no size bound): plain words, also with placeholder groups
+(`{x}`, `a{x}b`, `{$ENV}`, `{}` — the formatter keeps their `{` back for one character like a
+block brace), any non-CR white space /
 indentation / blank lines, arbitrarily nested `… {⏎ … ⏎}` blocks, simple double-quoted strings
 (one line, no backslash, followed by white space), comments (own line or after a
 word; any text without backslash / trailing blank).  NOT covered by these two
 theorems (only by the correspondence stream and the impl-side oracle): multi-line or escaped
-quoted strings, backquoted / heredoc tokens, placeholders `{x}`, line continuations, `#`/`"`/`<` inside words, CR, comments
+quoted strings, backquoted / heredoc tokens, line continuations, `#`/`"`/`<` inside words, CR, comments
 directly after a brace on the same line or directly before `{`.
 -/
 
@@ -188,9 +190,17 @@ example : inW (runes "example.com {\n  respond   \"Hello,  {world} # `x`\"  200\
   decide
 set_option maxRecDepth 100000 in
 example : inW (runes "# global\n\n\nexample.com {\n  # \"no\" <<tls> here\n  admin off # really\n}\n\n#\n# end") = true := by decide
+-- placeholders: glued into words, at the start of a line (after a word the formatter leaves the
+-- blank it writes before a kept-back `{` at the end of the previous line: `canonSep`/`braceLead`)
+set_option maxRecDepth 100000 in
+example : inW (runes "{$SITE}:443 {\n  root * {env.ROOT}/www\n  {args[0]} a{x}b {}\n\n# c\n{http.request.uri}\n}\n") = true := by
+  decide
+set_option maxRecDepth 100000 in
+example : format (runes "a\n{x} b") = runes "a \n{x} b\n" := by decide
 -- excluded, and indeed failing: one-line block, dangling brace, brace first on its line, CR inside a word
 set_option maxRecDepth 100000 in
 example : inW (runes "a { b }") = false ∧ inW (runes "a {") = false ∧ inW (runes "a\n{\n}") = false ∧
-    inW (runes "a\rb") = false ∧ inW (runes "# c\n{\n}") = false ∧ inW (runes "a # \\\n}") = false := by decide
+    inW (runes "a\rb") = false ∧ inW (runes "# c\n{\n}") = false ∧ inW (runes "a # \\\n}") = false ∧
+    inW (runes "a{") = false ∧ inW (runes "{{x}}") = false ∧ inW (runes "{}{") = false := by decide
 
 end CaddyModel.C17
